@@ -262,6 +262,36 @@ theorem cst_lexM_modulo : (c : Cst) → c.lexM.filter keep = (c.lex.map normLex)
   | .app f cs _ a => by
     simp only [Cst.lexM, Cst.lex, List.map_append, List.filter_append, cst_lexM_modulo f, cst_lexM_modulo a,
       map_normLex_lexGC]
+  | .kw w c1 _ h c2 _ c3 _ b => by
+    simp only [Cst.lexM, Cst.lex, List.map_cons, List.map_append, List.filter_cons, List.filter_append,
+      cst_lexM_modulo h, cst_lexM_modulo b, map_normLex_lexGC]
+    simp [normLex, keep, isBindDelim]
+  | .sel e c1 _ _ attrs => by
+    have hat : ∀ (as : List Text), (attrLex as).map normLex = attrLex as := by
+      intro as
+      induction as with
+      | nil => rfl
+      | cons a r ih => simp [attrLex, normLex, ih]
+    simp only [Cst.lexM, Cst.lex, List.map_append, List.filter_append, cst_lexM_modulo e, map_normLex_lexGC, hat]
+  | .selOr e c1 _ _ attrs c2 _ _ d => by
+    have hat : ∀ (as : List Text), (attrLex as).map normLex = attrLex as := by
+      intro as
+      induction as with
+      | nil => rfl
+      | cons a r ih => simp [attrLex, normLex, ih]
+    simp only [Cst.lexM, Cst.lex, List.map_append, List.map_cons, List.filter_append, List.filter_cons, cst_lexM_modulo e,
+      cst_lexM_modulo d, map_normLex_lexGC, hat]
+    simp [normLex, keep, isBindDelim]
+  | .lam n c1 _ c2 _ b => by
+    simp only [Cst.lexM, Cst.lex, List.map_append, List.map_cons, List.filter_append, List.filter_cons, cst_lexM_modulo b,
+      map_normLex_lexGC]
+    simp [normLex, keep, isBindDelim]
+  | .un op c _ e => by
+    simp only [Cst.lexM, Cst.lex, List.map_append, List.map_cons, List.filter_append, List.filter_cons, cst_lexM_modulo e,
+      map_normLex_lexGC, normLex]
+  | .bin l c1 _ op c2 _ r => by
+    simp only [Cst.lexM, Cst.lex, List.map_append, List.map_cons, List.filter_append, List.filter_cons, cst_lexM_modulo l,
+      cst_lexM_modulo r, map_normLex_lexGC, normLex]
 theorem items_lexM_modulo : (its : Items) → its.lexM.filter keep = (its.lex.map normLex).filter keep
   | .nil => rfl
   | .cmt _ t rest => by
@@ -280,9 +310,11 @@ theorem items_lexM_modulo : (its : Items) → its.lexM.filter keep = (its.lex.ma
 end
 
 /-- COMMENTS SURVIVE EXACTLY ONCE, IN ORDER, IN PLACE. For every well-formed file of the fragment
-    (containers, parentheses, function calls) in which no comment overtakes another (`File.orderOk`:
-    in item sequences, see `cex_comment_overtakes`; between function and argument of a call,
-    `appOrderOk`, see `cex_call_comment_reordered`), the
+    (containers, parentheses, function calls, `with e; body` and `assert e; body` with comments
+    anywhere but in the three gaps of the `with` / `assert` itself) in which no comment overtakes
+    another (`File.orderOk`: in item sequences, see `cex_comment_overtakes`; between function and
+    argument of a call, `appOrderOk`, see `cex_call_comment_reordered`) and no comment follows an
+    `assert` item (`!c.isAsrt || rest.noCmt`, see `cex_comment_after_assert`), the
     sequence of code tokens and comment tokens of the output — `lexOf` of the pieces — is the
     sequence of the input with every comment normalised, except that the comments of a binding
     written in front of `=` come out after it and those in front of `;` after it (`Items.lexM`). -/
@@ -362,6 +394,48 @@ example : callReorderFile.flatten = "f/* a */ /* b */ x".toList := by decide
 example : callReorderFile.roundtrip = .ok "f /* b */ /* a */\nx".toList := by decide
 example : callReorderFile.orderOk = false ∧ callReorderFile.orderOkSeq = true := by decide
 
+/-- statement with `orderOk` without its condition on `assert` items (`orderOkNA`) — false -/
+def frag_comments_preserved_no_assert_clause : Prop :=
+  ∀ (f : File) (s : Src), f.wf = true → f.noLeadingWs = true → f.orderOkNA = true → f.parse = .ok s →
+    (lexOf s.rebuildP).filter keep = (f.items.lex.map normLex).filter keep
+
+/-- `assert a; b # c⏎`: the comment after the body is attached to the top-level item — the
+    `Assertion` — as trailing trivia (`parse_delimited_sequence`, `NixSourceCode.from_cst`), and
+    `Assertion.rebuild` writes its trailing trivia with `add_trivia` on the `assert …;` line, in front
+    of the body: output `assert a; # c⏎b⏎` — the comment has moved across the token `b` (open finding
+    `C03-comments-comment-moved-source_code`; `expressions/assertion.py: rebuild`). The same inside
+    parentheses: `(assert a; b /* c */)` → `(assert a; /* c */⏎b)`. -/
+def assertCommentFile : File :=
+  { items := .elem [] (.kw false [] " ".toList (.leaf .ident "a".toList) [] [] [] " ".toList (.leaf .ident "b".toList))
+      (.cmt " ".toList "# c".toList .nil),
+    endGap := "\n".toList }
+
+theorem cex_comment_after_assert : ¬ frag_comments_preserved_no_assert_clause := by
+  intro h
+  have := h assertCommentFile _ (by decide) (by decide) (by decide) rfl
+  revert this; decide
+
+example : assertCommentFile.flatten = "assert a; b # c\n".toList := by decide
+example : assertCommentFile.roundtrip = .ok "assert a; # c\nb\n".toList := by decide
+example : assertCommentFile.orderOk = false ∧ assertCommentFile.orderOkNA = true := by decide
+
+/-- `assert` as a binding value with a comment in front of the binding's `;` (written after it, as for
+    every value), in parentheses, as a body of `with`; no comment follows an `assert` ITEM -/
+def assertSample : File :=
+  { items := .elem [] (.set false [] (.bind " ".toList "x".toList [] " ".toList [] " ".toList
+      (.kw false [] "\n   ".toList (.paren (.elem [] (.leaf .ident "a".toList) (.cmt " ".toList "/* p */".toList .nil)) [])
+        [] " ".toList [] "\n\n".toList
+        (.kw true [] " ".toList (.leaf .ident "e".toList) [] [] [] " ".toList
+          (.kw false [] " ".toList (.leaf .ident "c".toList) [] [] [] " ".toList (.leaf .ident "d".toList))))
+      [(" ".toList, "/* v */".toList)] [] .nil) " ".toList) .nil,
+    endGap := [] }
+
+example : assertSample.flatten = "{ x = assert\n   (a /* p */) ;\n\nwith e; assert c; d /* v */; }".toList := by decide
+example : assertSample.wf = true ∧ assertSample.noLeadingWs = true ∧ assertSample.orderOk = true := by decide
+example : (match assertSample.parse with
+    | .ok s => decide (lexOf s.rebuildP = assertSample.items.lexM)
+    | _ => false) = true := by decide
+
 /-- comments inside parentheses and between function and argument; no comment overtakes another -/
 def callSample : File :=
   { items := .elem []
@@ -374,6 +448,24 @@ example : callSample.flatten = "f /* a */\n  # b\n  ( /* p */ x # q\n)".toList :
 example : callSample.wf = true ∧ callSample.noLeadingWs = true ∧ callSample.orderOk = true := by decide
 example : (match callSample.parse with
     | .ok s => decide (lexOf s.rebuildP = callSample.items.lexM)
+    | _ => false) = true := by decide
+
+/-- `with` as a binding value, in parentheses and as a body, comments around and inside the parts -/
+def withSample : File :=
+  { items := .cmt [] "# h".toList (.elem "\n".toList
+      (.kw true [] " ".toList (.paren (.cmt [] "/* p */".toList (.elem " ".toList (.leaf .ident "a".toList) .nil)) [])
+        [] [] [] "\n\n  ".toList
+        (.set false [] (.bind " ".toList "x".toList [] " ".toList [] " ".toList
+          (.kw true [] " ".toList (.leaf .ident "b".toList) [] " ".toList [] " ".toList
+            (.list (.elem " ".toList (.leaf .ident "c".toList) (.cmt " ".toList "# e".toList .nil)) "\n".toList))
+          [(" ".toList, "/* v */".toList)] [] .nil) " ".toList))
+      (.cmt " ".toList "# t".toList .nil)),
+    endGap := "\n".toList }
+
+example : withSample.flatten = "# h\nwith (/* p */ a);\n\n  { x = with b ; [ c # e\n] /* v */; } # t\n".toList := by decide
+example : withSample.wf = true ∧ withSample.noLeadingWs = true ∧ withSample.orderOk = true := by decide
+example : (match withSample.parse with
+    | .ok s => decide (lexOf s.rebuildP = withSample.items.lexM)
     | _ => false) = true := by decide
 
 /-- a file with comments in every kind of gap of a binding; no comment overtakes another -/
